@@ -380,14 +380,14 @@ pub fn label_oracle_into(ctx: &mut Ctx) {
 // ---------------------------------------------------------------------------
 // C05(d): ranges of published LSP diagnostics for planted faults
 
-pub const LSP_SPELLINGS: [&str; 5] = ["one-line-per-declaration", "one-lexeme-per-line", "one-lexeme-per-line-crlf", "non-ascii-comment-before-every-lexeme", "two-documents"];
+pub const LSP_SPELLINGS: [&str; 6] = ["one-line-per-declaration", "one-lexeme-per-line", "one-lexeme-per-line-crlf", "non-ascii-comment-before-every-lexeme", "two-documents", "changed-to-one-lexeme-per-line-with-a-lower-version"];
 
 fn lsp_docs(w: &World, spelling: usize) -> Vec<(String, String, String)> {
     use crate::lex::{spell_with, Glue};
     let sp = |d: &crate::world::Decl| -> String {
         let lx = d.lx();
         match spelling {
-            1 => spell_with(&lx.v, "", "\n", &|_, g| if g == Glue::Hard { String::new() } else { "\n".to_string() }).text,
+            1 | 5 => spell_with(&lx.v, "", "\n", &|_, g| if g == Glue::Hard { String::new() } else { "\n".to_string() }).text,
             2 => spell_with(&lx.v, "", "\r\n", &|_, g| if g == Glue::Hard { String::new() } else { "\r\n".to_string() }).text,
             3 => spell_with(&lx.v, "  ", "\n", &|_, g| if g == Glue::Hard { String::new() } else { " (* \u{e9}\u{1F600} *) ".to_string() }).text,
             _ => d.text(),
@@ -447,6 +447,10 @@ fn lsp_range_problems(w: &World, spelling: usize) -> Vec<(String, String)> {
     let mut srv = MemSrv::new(Some(order));
     let mut last: Vec<Option<Value>> = vec![None; docs.len()];
     let mut steps: Vec<(usize, Value)> = docs.iter().enumerate().map(|(i, d)| (i, did_open(&d.0, 1, &d.2))).collect();
+    if spelling == 5 {
+        // the document was open before with another text and a higher version (version numbers are the client's)
+        steps = vec![(0, did_open(&docs[0].0, 7, &w.text())), (0, did_change(&docs[0].0, 2, &[docs[0].2.as_str()]))];
+    }
     if docs.len() > 1 {
         steps.push((0, did_change(&docs[0].0, 2, &[docs[0].2.as_str()])));
     }
